@@ -100,6 +100,8 @@ class Gen:
         if self.tbase < 0:
             t = f"t:{r.choice([-2, -1, 0, 0, 1, 2])}" + r.choice(PRES)
         c = r.random()
+        if c < 0.03:
+            return ["cmp", r.choice(CMPS), "~"]      # a time compared with None: ==/!= are defined, the order is not
         if c < 0.7:
             return ["cmp", r.choice(CMPS), t]
         if c < 0.8:
